@@ -287,6 +287,8 @@ class World:
         self.hedge_min_prob = 1.0
         self.x0_repeat_used = False
         self.lim_reason = None
+        self.last_filter_rows = None
+        self.last_filter_phase = None
         self.nonprog_bound = None
         self.loop_cap = None
         self.finish_info = None
@@ -388,6 +390,14 @@ class World:
         # ---- C14 (runs): poll geometry
         if phase == "poll" and self.poll_ctx is not None and u is not None:
             self._check_poll_point(u, k)
+        # ---- C17 (runs): what is evaluated in a design/search/poll step is a row of the candidate
+        # set the filter handed on for that step (nothing modifies candidates after filtering)
+        if u is not None and phase in ("init", "search", "poll") and self.last_filter_phase == phase \
+                and self.last_filter_rows is not None and not (phase == "init" and k <= 2):
+            if (u + 0.0).tobytes() not in self.last_filter_rows:
+                self.violate("C17", "evaluated-point-not-from-filter",
+                             f"{phase} step evaluated a point that is not in the candidate set its filter handed on",
+                             k=k, u=u, phase=phase)
         # ---- C17 (runs): repeated evaluation bookkeeping
         det_mode = (self.noise_mode == "none")
         if u is not None:
@@ -434,6 +444,12 @@ class World:
         return conv(yobs)
 
     def _do_target_fault(self, fk, x):
+        if fk == "raise:BareInjected":
+            raise InjectedTargetError()          # no arguments at all
+        if fk == "raise:BareAssertion":
+            assert x is None                     # a bare assert: AssertionError with empty args
+        if fk == "raise:StopIteration":
+            raise StopIteration
         if fk.startswith("raise:"):
             name = fk.split(":", 1)[1]
             exc = {"Injected": InjectedTargetError, "RuntimeError": RuntimeError,
@@ -510,7 +526,11 @@ class World:
         scale = max(1.0, float(np.max(np.abs(u))), float(np.max(np.abs(ctx["u0"]))))
         err = np.max(np.abs(vv - d[None, :]), axis=1)
         j = int(np.argmin(err))
-        if not err[j] <= 1e-9 * scale:
+        tol = 1e-9 * scale
+        if self.b is not None and self.b.options["force_poll_mesh"]:
+            # documented option: poll vectors are snapped onto the search mesh (at most half a cell)
+            tol += 0.5 * float(self.b.optim_state["search_mesh_size"]) * (1 + 1e-9)
+        if not err[j] <= tol:
             self.violate("C14", "poll-off-direction",
                          "polled point is not incumbent + mesh_size * direction",
                          u=u, u0=ctx["u0"], err=float(err[j]), mesh=ctx["mesh"])
@@ -821,6 +841,8 @@ def _check_filter(w, U, lb, ub, tol_mesh, X_logged, proj, out):
     if out.size == 0:
         w.probe("filter_empty_out")
         w.ev("filter", phase, U2.shape[0], 0)
+        w.last_filter_rows = set()
+        w.last_filter_phase = phase
         return
     feas = None
     if w.violation_fn is not None and w.b is not None:
@@ -831,6 +853,8 @@ def _check_filter(w, U, lb, ub, tol_mesh, X_logged, proj, out):
                     return X[i]
             return None
     problems, hits = filter_problems(U2, lb, ub, tol_mesh, X_logged, proj, out, feas)
+    w.last_filter_rows = {r.tobytes() for r in np.ascontiguousarray(out + 0.0)}
+    w.last_filter_phase = phase
     for i in hits:
         w.filter_passed_logged.add(np.ascontiguousarray(out[i]).tobytes())
     for cls, msg, detail in problems:
